@@ -359,3 +359,82 @@ func ZZ_C18_send_request() {
 		zzAssert(errors.Is(err, boom), "send-request.failure-carries-entry-error")
 	}
 }
+
+// ZZ_C18_cancel_before_send: a caller gives up after its entry was built into a batch and before
+// the batch is sent and registered (the window is open while the stream is being established).
+// Whatever send does with such an entry, every id that goes out on the stream is registered to the
+// entry whose request travels under it, and an echoing store (the answer to id X names the request
+// sent under X) makes every caller that is still waiting receive the answer to its own request.
+func ZZ_C18_cancel_before_send() {
+	n := zzParam("dentries", 3)
+	nh := zzParam("hosts", 2)
+	c, streams := zzBatchClient(zzHosts[:nh])
+	a := newBatchConn(1, 8, new(uint32))
+	a.initMetrics("t")
+	a.batchCommandsClients = append(a.batchCommandsClients, c)
+	var entries []*batchCommandsEntry
+	for i := 0; i < n; i++ {
+		e := zzEntryP(uint64(i))
+		entries = append(entries, e)
+		a.reqBuilder.push(e)
+	}
+	req, fwd := a.reqBuilder.buildWithLimit(1<<20, nil)
+	victim := zzChoice("victim", n+1)
+	if victim < n {
+		atomic.StoreInt32(&entries[victim].canceled, 1)
+	}
+	if req != nil {
+		c.send("", req)
+	}
+	for h, r := range fwd {
+		c.send(h, r)
+	}
+	// the echoing store: the answer under id X carries the index of the entry whose request was sent under X
+	owner := func(r *tikvpb.BatchCommandsRequest_Request) uint64 {
+		for i, e := range entries {
+			if e.req == r {
+				return uint64(i)
+			}
+		}
+		return 999
+	}
+	okReg := true
+	for h, zs := range streams {
+		resp := &tikvpb.BatchCommandsResponse{}
+		for _, r := range zs.sent {
+			for i, id := range r.RequestIds {
+				o := owner(r.Requests[i])
+				v, in := c.batched.Load(id)
+				okReg = okReg && in && o < uint64(n) && v.(*batchCommandsEntry) == entries[o] && entries[o].forwardedHost == h
+				resp.RequestIds = append(resp.RequestIds, id)
+				resp.Responses = append(resp.Responses, zzResp(o))
+			}
+		}
+		zs.script = []*tikvpb.BatchCommandsResponse{resp}
+	}
+	zzAssert(okReg, "cancel-before-send.every-sent-id-registered-to-its-own-entry")
+	for h, zs := range streams {
+		var bs *batchCommandsStream
+		if h == "" {
+			bs = c.client
+		} else {
+			bs = c.forwardedClients[h]
+		}
+		atomic.StoreInt32(&c.closed, 0)
+		zs.done = make(chan struct{})
+		done := zs.done
+		go c.batchRecvLoop(c.tikvClientCfg, c.tikvLoad, bs)
+		<-done
+	}
+	own := true
+	for i, e := range entries {
+		kind, r := zzOutcome(e)
+		if i == victim {
+			// its caller is gone: at most its own answer may have been put into its channel
+			own = own && (kind == 0 || (kind == 1 && r.GetGet().GetCommitTs() == uint64(i)))
+			continue
+		}
+		own = own && kind == 1 && r.GetGet().GetCommitTs() == uint64(i)
+	}
+	zzAssert(own, "cancel-before-send.every-waiting-caller-gets-its-own-answer")
+}
